@@ -34,6 +34,10 @@ def run(ctx):
     ctx.guard(rule_c, ctx, ix, reg)
     ctx.guard(rule_d, ctx, ix, reg)
     ctx.guard(rule_e, ctx, ix, reg)
+    # every registered loader version must still load: back-references are resolved after the object is published
+    from ..report import BorrowedCtx
+    from .C02 import rule_f as _backrefs
+    ctx.guard(_backrefs, BorrowedCtx(ctx, {'C02.f': 'C12.f'}), ix)
 
 
 def rule_a(ctx, ix, reg):
